@@ -134,6 +134,41 @@ func runC16x(rc *RunCtx) {
 	if late > 0 {
 		simrt.Probe("datagram_reported_after_its_association_was_removed")
 	}
+	// "every client datagram that creates or arrives on an association": a
+	// datagram that the client sent only after the association's outbound socket
+	// had been closed (strictly later on the clock) did not arrive on that
+	// association. (Not "after the removal was reported": the repository reports
+	// the removal a moment before it takes the entry out of its table, and a
+	// datagram slipping in between is legitimately handled by the dying entry.)
+	// Per client the reports follow the order in which its datagrams were read;
+	// every datagram of this scenario is valid and is reported. Associations and
+	// outbound sockets correspond in order of creation.
+	var outSocks []*simnet.UDPConn
+	for _, sk := range w.Socks {
+		if !sk.Foreign && sk != srv.Sock {
+			outSocks = append(outSocks, sk)
+		}
+	}
+	if len(outSocks) == len(m.UDP) {
+		sent := map[string][]time.Duration{}
+		for _, d := range srv.Sock.ReadLog {
+			sent[d.From.String()] = append(sent[d.From.String()], d.At)
+		}
+		nth := map[string]int{}
+		for i, rec := range m.UDP {
+			sk := outSocks[i]
+			for _, cl := range rec.Calls {
+				if cl.Kind != "fromclient" {
+					continue
+				}
+				k := nth[rec.Client]
+				nth[rec.Client]++
+				if k < len(sent[rec.Client]) && sk.IsClosed() && sent[rec.Client][k] > sk.ClosedAt {
+					rc.Failf("datagram-reported-on-dead-association", "client %s: its datagram #%d was sent at %v, after the outbound socket of its association (key %s) had been closed at %v, and was reported on that association (status %s) instead of creating a new one", rec.Client, k, sent[rec.Client][k], rec.Key, sk.ClosedAt, cl.Status)
+				}
+			}
+		}
+	}
 	rc.Nontrivial = len(m.UDP) > 0
 	rc.State(fmt.Sprintf("assocs=%d late=%v", len(m.UDP), late > 0))
 	rc.D("T=%v clients=%d datagrams=%d associations=%d reported-after-removal=%d", T, nC, total, len(m.UDP), late)
